@@ -364,6 +364,7 @@ def build_random_file(rng, tier, hostile):
         extra.add('logical-files>=10')
     for i in range(nlf):
         ents = []
+        lone = {'used': False}
 
         def add(t):
             p = t.encode()
@@ -379,6 +380,13 @@ def build_random_file(rng, tier, hostile):
             if rng.random() < 0.04:
                 extra.add('near-miss-of-a-reserved-set-type')
                 return E.random_table(rng, set_type=rng.choice(NEAR_MISS_SET_TYPES), lr_type=rng.choice([128, 129, 200, 255]), **kw)
+            if rng.random() < 0.04 and not lone['used']:
+                # a CHANNEL set or a FRAME set on its own (never both, never two: together they describe frame data, which is C04's
+                # subject): the reader keeps it aside for a log pass, and it is still a table like any other
+                lone['used'] = True
+                extra.add('lone-CHANNEL-or-FRAME-set')
+                st, lt = rng.choice([(b'CHANNEL', 3), (b'FRAME', 4)])
+                return E.random_table(rng, set_type=st, lr_type=lt, **kw)
             t = E.random_table(rng, **kw)
             if rng.random() < 0.06:
                 extra.add('reserved-word-as-a-name')
@@ -389,7 +397,7 @@ def build_random_file(rng, tier, hostile):
             """A redundant set (identical copy of an earlier named set of this logical file) or a replacement set (same type and name,
             new content), RP66V1 3.2.2.1: both are explicitly formatted records and are presented as tables like any other."""
             named = [e.table for e in ents[2:] if e.table is not None and e.table.set_name is not None and e.table.set_role == E.ROLE_SET
-                     and e.table.set_type != b'ORIGIN']
+                     and e.table.set_type not in (b'ORIGIN', b'CHANNEL', b'FRAME')]
             if not named or rng.random() >= 0.06:
                 return
             src = rng.choice(named)
